@@ -82,6 +82,22 @@ public:
     void add_member(osmium::item_type, long, const char*) {}
 };
 
+// G3 (set_user family): raw copy + 16-bit size store without a throwing test, narrowing overload
+class UserBuilder : public Builder {
+    unsigned char m_storage[64];
+    void set_user_size(osmium::string_size_type size) noexcept { std::memcpy(m_storage, &size, sizeof(size)); }
+public:
+    UserBuilder& set_user(const char* user, const osmium::string_size_type length) {
+        std::memcpy(m_storage + 2, user, length);
+        set_user_size(length + 1);
+        return *this;
+    }
+    UserBuilder& set_user(const char* user) {
+        const auto len = std::strlen(user);
+        return set_user(user, static_cast<osmium::string_size_type>(len));
+    }
+};
+
 class TagListBuilder : public Builder {
 public:
     // G3: the value is appended after a test of the key length
@@ -425,6 +441,8 @@ void verif_c03_positive(osmium::io::detail::PBFPrimitiveBlockDecoder& d, osmium:
     osmium::RelationMember m;
     b.add_role(m, *p, static_cast<std::size_t>(e - *p));
     osmium::io::detail::opl_parse_relation_members("n1", b);
+    osmium::builder::UserBuilder ub;
+    ub.set_user(e);
     osmium::builder::TagListBuilder t;
     t.add_tag(*p, static_cast<std::size_t>(e - *p), e, std::strlen(e));
     osmium::io::detail::XMLParser::ExpatXMLParser x{nullptr};
